@@ -319,7 +319,8 @@ Hbitwrite(int32 bitid, int count, uint32 data)
 
     /* change bitfile modes if necessary */
     if (bitfile_rec->mode == 'r')
-        HIread2write(bitfile_rec);
+        if (HIread2write(bitfile_rec) == FAIL)
+            HRETURN_ERROR(DFE_INTERNAL, FAIL);
 
     data &= maskl[count];
 
@@ -443,7 +444,8 @@ Hbitread(int32 bitid, int count, uint32 *data)
     /* Check for write access */
     /* change bitfile modes if necessary */
     if (bitfile_rec->mode == 'w')
-        HIwrite2read(bitfile_rec);
+        if (HIwrite2read(bitfile_rec) == FAIL)
+            HRETURN_ERROR(DFE_WRITEERROR, FAIL);
 
     if (count > (int)DATANUM) /* truncate the count if it's too large */
         count = DATANUM;
@@ -468,7 +470,7 @@ Hbitread(int32 bitid, int count, uint32 *data)
     while (count >= (int)BITNUM) {
         if (bitfile_rec->bytep == bitfile_rec->bytez) {
             n = Hread(bitfile_rec->acc_id, BITBUF_SIZE, bitfile_rec->bytea);
-            if (n == FAIL) { /* EOF */
+            if (n <= 0) { /* EOF (no byte left in the element counts as well: the buffer holds nothing to hand out) */
                 bitfile_rec->count =
                     0;     /* make certain that we don't try to access the file->bits information */
                 *data = b; /* assign the bits read in */
@@ -490,7 +492,7 @@ Hbitread(int32 bitid, int count, uint32 *data)
     if (count > 0) {
         if (bitfile_rec->bytep == bitfile_rec->bytez) {
             n = Hread(bitfile_rec->acc_id, BITBUF_SIZE, bitfile_rec->bytea);
-            if (n == FAIL) { /* EOF */
+            if (n <= 0) { /* EOF (no byte left in the element counts as well: the buffer holds nothing to hand out) */
                 bitfile_rec->count =
                     0;     /* make certain that we don't try to access the file->bits information */
                 *data = b; /* assign the bits read in */
